@@ -15,7 +15,8 @@ action_cache_server}.go`, `pkg/blobstore/grpcclients/cas_blob_access.go`.
   `Get` wraps what is stored into a validating CAS buffer (`getValidated`).
 * `Flags` selects the behaviour as pinned (`strictW = strictR = false`) or
   repaired (D5: the zstd write path checks that the first `write_offset` is 0;
-  D6: the zstd read path honours `read_offset`).
+  D6: the zstd read path honours `read_offset`; D10: the zstd client does not hand
+  out data together with `io.EOF`).
 -/
 namespace BB.ByteStream
 
@@ -66,6 +67,10 @@ structure Flags where
   lenient : Bool := true
   /-- what a decoder's `io.ErrUnexpectedEOF` surfaces as. -/
   truncErr : Err := ⟨2, "unexpected-eof"⟩
+  /-- D10 present: the client's `zstdByteStreamChunkReader.Read` hands out the final chunk
+  together with `io.EOF`, and the validating chunk reader drops it (happens when the last
+  read does not fill the `readChunkSize` buffer and the decoder already saw the end). -/
+  clientEOF : Bool := false
 
 /-- Content matches its digest. -/
 def Valid (C : Codec) (d : Digest) (c : Bytes) : Prop := c.length = d.size ∧ C.H c = d.hash
@@ -388,7 +393,7 @@ def cvLoop (C : Codec) (d : Digest) (code : Nat) : Bytes → List Bytes → Opti
     else cvLoop C d code (acc ++ c) cs term
 
 /-- `Get` of the client applied to what the server's `Read` produced. -/
-def clientGet (C : Codec) (F : Flags) (d : Digest) (r : ReadOut) : Except Err Bytes :=
+def clientGet (C : Codec) (F : Flags) (cs : Nat) (d : Digest) (r : ReadOut) : Except Err Bytes :=
   match r.zdata with
   | none => cvLoop C d 13 [] r.sent r.res
   | some z =>
@@ -399,7 +404,8 @@ def clientGet (C : Codec) (F : Flags) (d : Digest) (r : ReadOut) : Except Err By
       else match r.res with
         | some e => some e
         | none => if fin = .clean then none else some F.truncErr
-    cvLoop C d 13 [] [out] term
+    let seen := if F.clientEOF ∧ term = none then out.take (out.length - out.length % cs) else out
+    cvLoop C d 13 [] [seen] term
 
 /-- `FindMissing` of the client in front of the server: one call per digest function
 (a single one here), results converted back. -/
